@@ -399,11 +399,60 @@ fn lex_raw(text: &str, trailing: bool) -> (Vec<(Token, usize, usize)>, Option<(S
     (out, err)
 }
 
-/// Token spans of the part of a file that lexes, and whether that is the whole file
+/// Token spans of the part of a file that lexes, and whether that is the whole file. Lexed the way
+/// `preprocess_included_file` drives the `TokenStream`: after `# include` the rest of the line is lexed in
+/// header-name mode (`<a/b.h>` is one token, an unterminated `<abc` is a lexer error that ends the lexing).
 fn lex_prefix(text: &str) -> (Vec<Tok>, bool) {
-    let (raw, err) = lex_raw(text, false);
-    let toks = raw.iter().map(|(t, s, e)| Tok { k: kind_of(t, text, *s), start: *s, end: *e }).collect();
-    (toks, err.is_none())
+    use rssl_preprocess::verif::TokenStream;
+    #[derive(PartialEq)]
+    enum S {
+        StartOfLine,
+        CommandStart,
+        CommandContents,
+        Normal,
+    }
+    let mut ts = TokenStream::new(text, SourceLocation::first()).suppress_trailing_endline();
+    let mut st = S::StartOfLine;
+    let mut inside_include = false;
+    let mut toks = Vec::new();
+    let mut complete = true;
+    while !ts.end_of_stream() {
+        let t = match guard(|| ts.next(inside_include)) {
+            Ok(Ok(t)) => t,
+            _ => {
+                complete = false;
+                break;
+            }
+        };
+        let (s, e) = (t.get_location().get_raw() as usize, t.get_end_location().get_raw() as usize);
+        match (&t.0, &st) {
+            (Token::Endline, _) => {
+                st = S::StartOfLine;
+                inside_include = false;
+            }
+            (Token::Hash, S::StartOfLine) => st = S::CommandStart,
+            (tok, S::CommandStart) if !tok.is_whitespace() => {
+                st = S::CommandContents;
+                if let Token::Id(id) = tok {
+                    if id.0 == "include" {
+                        inside_include = true;
+                    }
+                }
+            }
+            (tok, S::StartOfLine) => {
+                if !tok.is_whitespace() {
+                    st = S::Normal;
+                }
+            }
+            _ => {}
+        }
+        toks.push(Tok { k: kind_of(&t.0, text, s), start: s, end: e });
+        if toks.len() > text.len() + 2 {
+            complete = false;
+            break;
+        }
+    }
+    (toks, complete)
 }
 
 /// Token spans of a file from the real lexer (no directive handling); None when the file does not lex
@@ -1408,7 +1457,7 @@ fn own_program(family: &str, rng: &mut Rng) -> Option<OwnProg> {
             // bytes other languages treat as white space: rssl's lexer rejects all of them outside comments and strings
             let b = *rng.pick(&["\u{c}", "\u{b}", "\u{a0}", "\u{feff}", "\r", "\u{2028}", "\u{0}", "\u{1a}"]);
             let at_start = rng.chance(1, 3);
-            let src = if at_start { format!("{}int f() {{ return 1; }}\n", b) } else { format!("{}int f()\n{{\n    return 1;{}\n}}\n", head, b) };
+            let src = if at_start { format!("{}int f() {{ return 1; }}\n", b) } else { format!("{}int f()\n{{\n    return 1;{} \n}}\n", head, b) };
             one(src, vec![(0, b.to_string())])
         }
         "lt_comment_ends_file" => {
